@@ -1,5 +1,6 @@
 //! `libsodium_rs::random` — see the crate header for the contract (infallible by API; a failing OS source aborts the process).
 use crate::abort_process;
+use vmodel_core::DRAW_CAP;
 
 /// `randombytes_buf` into a fresh Vec of `size` bytes. One logged draw per call.
 pub fn bytes(size: usize) -> Vec<u8> {
@@ -9,9 +10,23 @@ pub fn bytes(size: usize) -> Vec<u8> {
 }
 
 /// `randombytes_buf` into `buf`. One logged draw per call.
+///
+/// The draw goes into a local array first and is copied out unconditionally once the failing path has been terminated:
+/// `vmodel_core::rng_fill` writes its buffer under the (symbolic) success condition, and with such a guarded write into the
+/// caller's large heap buffer CBMC 6.11 returned byte-swapped values for later 4-byte big-endian reads of *other* bytes of
+/// that buffer (observed in v4s_pbkw wrap_fail_closed_h, see units/v4s/NOTES.md). The local copy keeps guarded writes out of
+/// caller memory; the observable behaviour (all of `buf` = the logged draw, or no return) is the same.
 pub fn fill_bytes(buf: &mut [u8]) {
-    if !vmodel_core::rng_fill(buf) {
+    let n = buf.len();
+    assert!(n <= DRAW_CAP, "[model] capacity: RNG draw longer than DRAW_CAP");
+    let mut tmp = [0u8; DRAW_CAP];
+    if !vmodel_core::rng_fill(&mut tmp[..n]) {
         // libsodium: randombytes_sysrandom_buf -> sodium_misuse() -> abort(). The call never returns to Rust code.
         abort_process();
+    }
+    let mut i = 0;
+    while i < n {
+        buf[i] = tmp[i];
+        i += 1;
     }
 }
